@@ -6,9 +6,9 @@ Open Scope N_scope.
 
 Theorem built_dispatch_follows_rule ops rt host p m :
   Forall op_clean ops -> build_app ops = BOk rt ->
-  starts_with [SLASH] p = true -> path_safe_dec p = p ->
+  starts_with [SLASH] p = true ->
   resolve_ix rt host p m = resolve_rule rt host p m.
-Proof. intros Hc Hb Hp Hd. apply index_eq_rule; [eapply build_app_ok; eassumption|assumption|assumption]. Qed.
+Proof. intros Hc Hb Hp. apply index_eq_rule; [eapply build_app_ok; eassumption|assumption]. Qed.
 
 (* ---- construction keeps tables well formed (every leaf has a route, statics list GET/HEAD) *)
 
@@ -135,19 +135,19 @@ Qed.
 (* ---- 404 / 405 for the code model (index walk), through any nesting of sub-applications *)
 
 Theorem ix_sweep rt host p : router_ok rt -> wf_router rt ->
-  starts_with [SLASH] p = true -> path_safe_dec p = p ->
+  starts_with [SLASH] p = true ->
   sweep_ok (fun m => resolve_ix rt host p m).
 Proof.
-  intros Hok Hwf Hp Hd. destruct (rule_sweep rt host p Hwf) as [S1 S2]. split.
-  - intros m Hm m'. rewrite (index_eq_rule rt host p m' Hok Hp Hd). rewrite (index_eq_rule rt host p m Hok Hp Hd) in Hm. eauto.
-  - intros m A Hm m'. rewrite (index_eq_rule rt host p m' Hok Hp Hd). rewrite (index_eq_rule rt host p m Hok Hp Hd) in Hm. eauto.
+  intros Hok Hwf Hp. destruct (rule_sweep rt host p Hwf) as [S1 S2]. split.
+  - intros m Hm m'. rewrite (index_eq_rule rt host p m' Hok Hp). rewrite (index_eq_rule rt host p m Hok Hp) in Hm. eauto.
+  - intros m A Hm m'. rewrite (index_eq_rule rt host p m' Hok Hp). rewrite (index_eq_rule rt host p m Hok Hp) in Hm. eauto.
 Qed.
 
 Theorem built_sweep ops rt host p : Forall op_clean ops -> build_app ops = BOk rt ->
-  starts_with [SLASH] p = true -> path_safe_dec p = p ->
+  starts_with [SLASH] p = true ->
   sweep_ok (fun m => resolve_ix rt host p m).
 Proof.
-  intros Hc Hb Hp Hd. apply ix_sweep; [eapply build_app_ok; eassumption|eapply build_app_wf; eassumption|assumption|assumption].
+  intros Hc Hb Hp. apply ix_sweep; [eapply build_app_ok; eassumption|eapply build_app_wf; eassumption|assumption].
 Qed.
 
 (* ---- every literal that parse_template produces is matched in the path_safe form of its formatter text *)
@@ -254,14 +254,14 @@ Qed.
 Example ex_ops_clean : Forall op_clean capture_ops /\ Forall op_clean nested_domain_ops.
 Proof. split; repeat constructor. Qed.
 
-(* a plain resource whose path is written with an escape is indexed under the decoded key but compared
-   as written: a path that is not a fixed point of path_safe (yarl yields "/a%20b" for the target
-   "/a%2%30b") matches it under the rule but is not found through the index *)
+(* a plain resource whose path is written with an escape is compared and indexed as written (b7a1f19):
+   the path "/a%20b" (yarl's path_safe of the malformed target "/a%2%30b", not a fixed point of
+   path_safe) finds it through the index *)
 Definition s_a20b : str := [47; 97; 37; 50; 48; 98].                     (* /a%20b *)
 
-Theorem index_rule_nonfixpoint_witness :
+Example plain_key_as_written_example :
   exists rt, build_app [ORoute s_POST s_a20b 1] = BOk rt /\ path_safe_dec s_a20b <> s_a20b /\
-    resolve_ix rt None s_a20b s_POST = NotFound /\ resolve_rule rt None s_a20b s_POST = Found 1 [].
+    resolve_ix rt None s_a20b s_POST = Found 1 [] /\ resolve_ix rt None s_a20b s_GET = NotAllowed [s_POST].
 Proof.
   destruct (build_app [ORoute s_POST s_a20b 1]) as [rt|e] eqn:E; [|vm_compute in E; discriminate].
   exists rt. split; [reflexivity|]. vm_compute in E. inversion E; subst rt. clear E.
@@ -301,9 +301,6 @@ Qed.
 
 Example ex_ops_ex_clean : Forall op_clean ex_ops.
 Proof. repeat constructor. Qed.
-
-Example ex_path_is_path_safe : path_safe_dec [47; 115; 47; 115; 47; 113] = [47; 115; 47; 115; 47; 113].
-Proof. vm_compute. reflexivity. Qed.
 
 Example ex_good_for :
   let pat := [Lit [47; 97; 47] [47; 97; 47]; Hole [120] CGood 1%nat; Lit [47; 98] [47; 98]; Hole [121] CDigit 1%nat] in
